@@ -99,27 +99,36 @@ theorem kholaw_child_left_spec (zl kl r : Bytes) (h : kholawNewLeft .kholaw zl k
     Bytes.toNatLE r = Bytes.toNatLE (zl.take 28) * 8 + Bytes.toNatLE kl ∧ r.length = 32 :=
   CardanoLemmas.kholaw_child_left_spec zl kl r h
 
-/-- it fails with `Bip32KeyError` iff the sum is `≡ 0 (mod L)` … -/
+/-- it fails with `Bip32KeyError` iff the sum is `≡ 0 (mod L)` or needs more than 32 bytes
+(`≥ 2^256`; this second case raised `OverflowError` before the library fix) … -/
 theorem kholaw_child_left_key_iff (zl kl : Bytes) :
     kholawNewLeft .kholaw zl kl = .error .key ↔
-      (Bytes.toNatLE (zl.take 28) * 8 + Bytes.toNatLE kl) % edL = 0 :=
+      (Bytes.toNatLE (zl.take 28) * 8 + Bytes.toNatLE kl) % edL = 0 ∨
+        2 ^ 256 ≤ Bytes.toNatLE (zl.take 28) * 8 + Bytes.toNatLE kl :=
   CardanoLemmas.kholaw_child_left_key_iff zl kl
 
-/-- … and with `OverflowError` iff the sum is `≥ 2^256` and not `≡ 0 (mod L)` (the `mod L` test
-comes first in the code; the bare "iff `≥ 2^256`" is false, see the next theorem) -/
-theorem kholaw_child_left_overflow_iff (zl kl : Bytes) :
-    kholawNewLeft .kholaw zl kl = .error .overflow ↔
-      (Bytes.toNatLE (zl.take 28) * 8 + Bytes.toNatLE kl) % edL ≠ 0 ∧
-        2 ^ 256 ≤ Bytes.toNatLE (zl.take 28) * 8 + Bytes.toNatLE kl :=
-  CardanoLemmas.kholaw_child_left_overflow_iff zl kl
+/-- … and never with `OverflowError`: a sum `≥ 2^256` is refused before `int.to_bytes` is reached -/
+theorem kholaw_child_left_never_overflow (zl kl : Bytes) :
+    kholawNewLeft .kholaw zl kl ≠ .error .overflow :=
+  CardanoLemmas.kholaw_child_left_never_overflow zl kl
 
-/-- counter-example to "`OverflowError` iff `≥ 2^256`": the sum `16·L` is `≥ 2^256` and reported
-as `Bip32KeyError` -/
+/-- both reasons can hold at once: the sum `16·L` is `≥ 2^256` and `≡ 0 (mod L)`, reported as
+`Bip32KeyError` -/
 theorem kholaw_child_left_key_above_2_256 :
     ∃ zl kl : Bytes, zl.length = 32 ∧ kl.length = 32 ∧
       2 ^ 256 ≤ Bytes.toNatLE (zl.take 28) * 8 + Bytes.toNatLE kl ∧
+      (Bytes.toNatLE (zl.take 28) * 8 + Bytes.toNatLE kl) % edL = 0 ∧
       kholawNewLeft .kholaw zl kl = .error .key :=
   CardanoLemmas.kholaw_child_left_key_above_2_256
+
+/-- the size refusal on its own: a sum `≥ 2^256` that is not a multiple of `L` is reported as
+`Bip32KeyError` (the case that was `OverflowError` before the library fix) -/
+theorem kholaw_child_left_key_size_only :
+    ∃ zl kl : Bytes, zl.length = 32 ∧ kl.length = 32 ∧
+      2 ^ 256 ≤ Bytes.toNatLE (zl.take 28) * 8 + Bytes.toNatLE kl ∧
+      (Bytes.toNatLE (zl.take 28) * 8 + Bytes.toNatLE kl) % edL ≠ 0 ∧
+      kholawNewLeft .kholaw zl kl = .error .key :=
+  CardanoLemmas.kholaw_child_left_key_size_only
 
 theorem kholaw_child_left_ok_iff (zl kl : Bytes) :
     (∃ r, kholawNewLeft .kholaw zl kl = .ok r) ↔
@@ -127,8 +136,9 @@ theorem kholaw_child_left_ok_iff (zl kl : Bytes) :
         Bytes.toNatLE (zl.take 28) * 8 + Bytes.toNatLE kl < 2 ^ 256 :=
   CardanoLemmas.kholaw_child_left_ok_iff zl kl
 
+/-- the only error class of the left half is `Bip32KeyError` -/
 theorem kholaw_child_left_error_kinds (zl kl : Bytes) (e : Err)
-    (h : kholawNewLeft .kholaw zl kl = .error e) : e = .key ∨ e = .overflow :=
+    (h : kholawNewLeft .kholaw zl kl = .error e) : e = .key :=
   kholaw_child_left_errors zl kl e h
 
 /-- multiples of 8 stay multiples of 8; each level adds less than `2^227` -/
@@ -149,24 +159,63 @@ theorem kholaw_depth_bound_256 (zs : List Bytes) (kl r : Bytes) (hm : Bytes.toNa
     (hd : zs.length ≤ 255) (h : kholawLeftChain zs kl = .ok r) : Bytes.toNatLE r < 2 ^ 256 :=
   CardanoLemmas.kholaw_depth_bound_256 zs kl r hm hd h
 
-/-- … and `ToBytes(…, 32)` never overflows along such a chain -/
+/-- … and the size refusal (sum `≥ 2^256`: `OverflowError` before the library fix, `Bip32KeyError`
+since) never happens along such a chain: at every level — after any prefix `pre` of the chain that
+succeeded with `r`, for the next `z` — the sum `8·z[:28] + r` is below `2^256` -/
 theorem kholaw_no_overflow (zs : List Bytes) (kl : Bytes) (hm : Bytes.toNatLE kl < 2 ^ 255)
-    (hd : zs.length ≤ 255) : kholawLeftChain zs kl ≠ .error .overflow :=
-  kholaw_no_overflow_master zs kl hm hd
+    (hd : zs.length ≤ 255)
+    (pre : List Bytes) (z : Bytes) (post : List Bytes) (hzs : zs = pre ++ z :: post) (r : Bytes)
+    (hr : kholawLeftChain pre kl = .ok r) :
+    Bytes.toNatLE (z.take 28) * 8 + Bytes.toNatLE r < 2 ^ 256 :=
+  kholaw_no_overflow_master zs kl hm hd pre z post hzs r hr
+
+/-- so such a chain fails only with `Bip32KeyError`, at a level whose sum is `≡ 0 (mod L)` -/
+theorem kholaw_chain_error (zs : List Bytes) (kl : Bytes) (hm : Bytes.toNatLE kl < 2 ^ 255)
+    (hd : zs.length ≤ 255) (e : Err) (h : kholawLeftChain zs kl = .error e) :
+    e = .key ∧ ∃ pre z post r, zs = pre ++ z :: post ∧ kholawLeftChain pre kl = .ok r ∧
+      (Bytes.toNatLE (z.take 28) * 8 + Bytes.toNatLE r) % edL = 0 ∧
+      Bytes.toNatLE (z.take 28) * 8 + Bytes.toNatLE r < 2 ^ 256 :=
+  kholaw_chain_error_master zs kl hm hd e h
 
 /-- the same on real nodes: a Khovratovich-Law master built by `kholawMasterKey` / `icarusMasterKey`
-followed by any derivation path of at most 255 indices never raises `OverflowError` -/
+followed by any derivation path of at most 255 indices never meets the size refusal.  At every node
+`n` reached by a prefix `pre` of the path (private, with key `k'`), the left half the next step
+(index `i`) computes is below `2^256`, so that step's `CKDpriv` can fail only with `Bip32KeyError`
+and only because the new left half is `≡ 0 (mod L)`  (`ckdZ n k' i` is the HMAC output `Z` of that
+step). -/
 theorem kholaw_master_path_no_overflow (seed : Bytes) (m : Node)
-    (h : kholawMaster .kholaw kholawMasterKey seed = .ok m) (l : List Nat) (hl : l.length ≤ 255) :
-    l.foldlM kholawChildKey m ≠ .error .overflow :=
+    (h : kholawMaster .kholaw kholawMasterKey seed = .ok m) (l : List Nat) (hl : l.length ≤ 255)
+    (pre : List Nat) (i : Nat) (post : List Nat) (hsplit : l = pre ++ i :: post) (n : Node)
+    (hn : pre.foldlM kholawChildKey m = .ok n) :
+    ∃ k', n.priv = some k' ∧ n.scheme = .kholaw ∧
+      (Bytes.toNatLE (((ckdZ n k' i).take 32).take 28) * 8 + Bytes.toNatLE (k'.take 32)) < 2 ^ 256 ∧
+      ∀ e, kholawCkdPriv n k' i = .error e ↔
+        e = .key ∧ (Bytes.toNatLE (((ckdZ n k' i).take 32).take 28) * 8 + Bytes.toNatLE (k'.take 32)) % edL = 0 :=
   CardanoLemmas.kholaw_master_path_no_overflow kholawMasterKey seed m
-    (fun k cc hg => (kholawMasterKey_ok seed k cc hg).2.2.2.1) h l hl
+    (fun k cc hg => (kholawMasterKey_ok seed k cc hg).2.2.2.1) h l hl pre i post hsplit n hn
 
+/-- the same for an Icarus master -/
 theorem icarus_master_path_no_overflow (seed : Bytes) (m : Node)
-    (h : kholawMaster .kholaw icarusMasterKey seed = .ok m) (l : List Nat) (hl : l.length ≤ 255) :
-    l.foldlM kholawChildKey m ≠ .error .overflow :=
+    (h : kholawMaster .kholaw icarusMasterKey seed = .ok m) (l : List Nat) (hl : l.length ≤ 255)
+    (pre : List Nat) (i : Nat) (post : List Nat) (hsplit : l = pre ++ i :: post) (n : Node)
+    (hn : pre.foldlM kholawChildKey m = .ok n) :
+    ∃ k', n.priv = some k' ∧ n.scheme = .kholaw ∧
+      (Bytes.toNatLE (((ckdZ n k' i).take 32).take 28) * 8 + Bytes.toNatLE (k'.take 32)) < 2 ^ 256 ∧
+      ∀ e, kholawCkdPriv n k' i = .error e ↔
+        e = .key ∧ (Bytes.toNatLE (((ckdZ n k' i).take 32).take 28) * 8 + Bytes.toNatLE (k'.take 32)) % edL = 0 :=
   CardanoLemmas.kholaw_master_path_no_overflow icarusMasterKey seed m
-    (fun k cc hg => (icarusMasterKey_ok seed k cc hg).2.2.2) h l hl
+    (fun k cc hg => (icarusMasterKey_ok seed k cc hg).2.2.2) h l hl pre i post hsplit n hn
+
+/-- and `OverflowError` is never raised along any path (of any length) from such masters -/
+theorem kholaw_master_path_never_overflow (seed : Bytes) (m : Node)
+    (h : kholawMaster .kholaw kholawMasterKey seed = .ok m) (l : List Nat) :
+    l.foldlM kholawChildKey m ≠ .error .overflow :=
+  CardanoLemmas.kholaw_master_path_never_overflow kholawMasterKey seed m h l
+
+theorem icarus_master_path_never_overflow (seed : Bytes) (m : Node)
+    (h : kholawMaster .kholaw icarusMasterKey seed = .ok m) (l : List Nat) :
+    l.foldlM kholawChildKey m ≠ .error .overflow :=
+  CardanoLemmas.kholaw_master_path_never_overflow icarusMasterKey seed m h l
 
 /-- node level growth bound and divisibility along a whole path -/
 theorem kholaw_path_bound (l : List Nat) (nd c : Node) (k : Bytes)
